@@ -625,3 +625,137 @@ class RouterAdd(Contract):
 
 
 CONTRACTS += [RouterAdd()]
+
+
+class RouterAddInner(Contract):
+    """RadiRouter._add: tree, route index and name index change together, or not at all.
+      * a name that already belongs to ANOTHER route (and no overwrite) is refused before anything is changed;
+      * a rule that is already registered (same pattern AND filters: _match) reuses its Route object - its other methods stay; a new
+        rule is put into the tree and into self.routes under its pattern, both or neither;
+      * the verbs are bound with set_method when overwrite is asked for, otherwise with add_method (which refuses a taken verb),
+        with the handler and meta given;
+      * the name, if any, is bound to the route that now serves the rule; the route is returned."""
+    props = ('C02', 'C11')
+    file = 'ombott/router/radirouter.py'
+    qualname = 'RadiRouter._add'
+    assumptions = ('callee contracts: _match returns the registered Route for (pattern, filters) or None; RadiDict.add (tree insert: bounded); '
+                   'Route.set_method / add_method as proved (add_method may refuse with RouteMethodError and then changes nothing)',
+                   'a Route object is truthy')
+    expected_labels = ('name.clash_refused_before_any_change', 'route.registered_rule_reuses_its_route', 'route.new_rule_enters_tree_and_index_together',
+                       'methods.bound_with_the_requested_mode', 'name.bound_to_the_serving_route', 'post.returns_the_serving_route')
+
+    def pre(self, X):
+        g = X.globals
+        self.BuildErr, self.MethErr = g['RouteBuildError'], g['RouteMethodError']
+        self.exists = X.choose(2, 'rule already registered?') == 1
+        self.named = X.choose(2, 'name given?') == 1
+        self.name_state = X.choose(3, 'name: free | belongs to this route | belongs to another route') if self.named else 0
+        self.overwrite = X.fresh_bool('overwrite')
+        self.rule = X.fresh_str('rule')
+        self.handler, self.meta = VOpaque(X.fresh(PyObj, 'handler'), 'func'), VOpaque(X.fresh(PyObj, 'meta'), 'meta')
+        self.methods = VOpaque(X.fresh(PyObj, 'methods'), 'list')
+        self.name = X.fresh_str('name') if self.named else NONE
+        if self.named:
+            X.assume(z3.Length(self.name.t) > 0)
+        self.new_route = VObj('Route', {'pattern': X.fresh_str('pattern'), 'filters': VOpaque(X.fresh(PyObj, 'filters'), 'filters'), 'truthy': VBool(True)})
+        self.old_route = VObj('Route', {'pattern': self.new_route.fields['pattern'], 'filters': self.new_route.fields['filters'], 'truthy': VBool(True)})
+        self.other_route = VObj('Route', {'pattern': X.fresh_str('other_pattern'), 'filters': NONE, 'truthy': VBool(True)})
+        self.events = []
+        c = self
+
+        def route_ctor(X, args, kwargs):
+            c.events.append(('Route', args))
+            return c.new_route
+
+        def match(X, args, kwargs):
+            c.events.append(('_match', args[1:]))
+            return c.old_route if c.exists else NONE
+
+        def names_get(X, args, kwargs):
+            if not c.named:
+                return NONE
+            cur = c.name_now
+            return cur if cur is not None else NONE
+
+        def tree_add(X, args, kwargs):
+            c.events.append(('tree.add', args[1:]))
+            return NONE
+
+        def params_signature(X, args, kwargs):
+            return VOpaque(X.fresh(PyObj, 'signature'), 'signature')
+
+        def bind(mode):
+            def f(X, args, kwargs):
+                c.events.append((mode, args))
+                if mode == 'add_method' and X.choose(2, 'add_method: ok | verb taken') == 1:
+                    X.raise_(c.MethErr, 'taken')
+                return NONE
+            return f
+        self.name_now = [None, None, self.other_route][self.name_state]
+        if self.name_state == 1:
+            self.name_now = self.old_route if self.exists else None      # "belongs to this route" needs the route to exist
+            if not self.exists:
+                self.name_state = 0
+        self.stubs = {'Route': route_ctor, 'Router._match': match, 'Names.get': names_get, 'Tree.add': tree_add,
+                      'Route.params_signature': params_signature, 'Route.set_method': bind('set_method'), 'Route.add_method': bind('add_method')}
+        self.routes_idx, self.names_idx = VObj('RoutesIdx', {}), VObj('Names', {})
+        self.me = VObj('Router', {'radidict': VObj('Tree', {}), 'routes': self.routes_idx, 'named_routes': self.names_idx})
+        return {'self': self.me, 'rule': self.rule, 'methods': self.methods, 'handler': self.handler, 'name': self.name,
+                'meta': self.meta, 'overwrite': self.overwrite}
+
+    def setitem_hook(self, X, obj, key, val):
+        if obj is self.routes_idx:
+            self.events.append(('routes[]', key, val))
+            return True
+        if obj is self.names_idx:
+            self.events.append(('names[]', key, val))
+            self.name_now = val
+            return True
+        return False
+
+    def _changes(self):
+        return [e for e in self.events if e[0] in ('tree.add', 'routes[]', 'names[]', 'set_method', 'add_method')]
+
+    def _serving(self):
+        return self.old_route if self.exists else self.new_route
+
+    def post(self, X, ret):
+        serving = self._serving()
+        X.prove('post.returns_the_serving_route', z3.BoolVal(ret is serving))
+        tree = [e for e in self.events if e[0] == 'tree.add']
+        idx = [e for e in self.events if e[0] == 'routes[]']
+        if self.exists:
+            X.prove('route.registered_rule_reuses_its_route', z3.BoolVal(not tree and not idx))
+        else:
+            ok = (len(tree) == 1 and len(idx) == 1 and tree[0][1][0] is self.new_route.fields['pattern'] and tree[0][1][1] is self.new_route
+                  and idx[0][1] is self.new_route.fields['pattern'] and idx[0][2] is self.new_route)
+            X.prove('route.new_rule_enters_tree_and_index_together', z3.BoolVal(bool(ok)))
+        binds = [e for e in self.events if e[0] in ('set_method', 'add_method')]
+        okb = len(binds) == 1 and binds[0][1][0] is serving and binds[0][1][1] is self.methods and binds[0][1][2] is self.handler \
+            and binds[0][1][3] is self.meta
+        X.prove('methods.bound_with_the_requested_mode',
+                z3.And(z3.BoolVal(bool(okb)), self.overwrite.t == z3.BoolVal(binds[0][0] == 'set_method')) if okb else z3.BoolVal(False))
+        nm = [e for e in self.events if e[0] == 'names[]']
+        if self.named:
+            X.prove('name.bound_to_the_serving_route',
+                    z3.BoolVal(len(nm) == 1 and nm[0][1] is self.name and nm[0][2] is serving))
+            if self.name_state == 2:
+                X.prove('name.clash_refused_before_any_change', self.overwrite.t)      # only an overwrite may take a name over
+        else:
+            X.prove('name.bound_to_the_serving_route', z3.BoolVal(not nm))
+
+    def post_raise(self, X, exc):
+        if exc.pyclass is self.BuildErr:
+            X.prove('name.clash_refused_before_any_change',
+                    z3.And(z3.BoolVal(self.named and self.name_state == 2 and not self._changes()), z3.Not(self.overwrite.t)))
+        elif exc.pyclass is self.MethErr:
+            # refused by add_method: nothing but a brand-new (method-less) route may have been entered, and only without overwrite
+            binds = [e for e in self.events if e[0] in ('set_method', 'add_method')]
+            X.prove('methods.bound_with_the_requested_mode',
+                    z3.And(z3.BoolVal(len(binds) == 1 and binds[0][0] == 'add_method' and not [e for e in self.events if e[0] == 'names[]']),
+                           z3.Not(self.overwrite.t)))
+        else:
+            X.prove('raises.only_build_or_method_errors', z3.BoolVal(False))
+
+
+CONTRACTS += [RouterAddInner()]
